@@ -88,7 +88,7 @@ T_Exit == /\ IsEvent("exit")
              /\ IF ~Known(t) THEN G("exit.cur", cur = t)
                 ELSE IF t \in Client
                 THEN /\ G("exit.cur", cur = t /\ ~yl)
-                     /\ G("exit.client." \o cli[t].op, cli[t].stage = "idle" /\ E.how = "ready")
+                     /\ G("exit.client." \o (IF pend[t] # NoOp THEN pend[t].op ELSE cli[t].op), cli[t].stage = "idle" /\ pend[t] = NoOp /\ E.how = "ready")
                 ELSE IF t \in DOMAIN tmr
                 THEN /\ G("exit.cur", cur = t /\ ~yl)
                      /\ G(IF act[tmr[t].a].rtaken > 0 /\ tmr[t].inc = act[tmr[t].a].inc THEN "exit.timer.afterrestart"
